@@ -231,26 +231,26 @@ Lemma firstn_repeat' : forall {A} (x : A) n m, firstn n (repeat x m) = repeat x 
 Proof. induction n; intros m; [reflexivity|]. destruct m; [reflexivity|]. cbn. now rewrite IHn. Qed.
 
 Lemma bits_to_bytes_spec : forall fuel s, (length s < 8 * fuel)%nat ->
-  exists k, bytes_to_bits (bits_to_bytes fuel s) = s ++ repeat false k.
+  exists k, (k < 8)%nat /\ bytes_to_bits (bits_to_bytes fuel s) = s ++ repeat false k.
 Proof.
   induction fuel; intros s H; [lia|]. cbn [bits_to_bytes].
-  destruct s as [|b s']; [exists 0%nat; reflexivity|].
+  destruct s as [|b s']; [exists 0%nat; split; [lia|reflexivity]|].
   assert (1 <= length (b :: s'))%nat as Hne by (cbn; lia).
   remember (b :: s') as s eqn:Es. 
   clear Es b s'. unfold bytes_to_bits. cbn [map concat]. fold (bytes_to_bits (bits_to_bytes fuel (skipn 8 s))).
   destruct (le_lt_dec 8 (length s)) as [Hlong|Hshort].
-  - destruct (IHfuel (skipn 8 s)) as [k Hk]; [rewrite skipn_length; lia|].
-    exists k. rewrite Hk.
+  - destruct (IHfuel (skipn 8 s)) as [k [Hk8 Hk]]; [rewrite skipn_length; lia|].
+    exists k. split; [exact Hk8|]. rewrite Hk.
     rewrite firstn_app. replace (8 - length s)%nat with 0%nat by lia. rewrite firstn_O, app_nil_r.
     rewrite bytes_bits_chunk by (rewrite firstn_length; lia).
     rewrite app_assoc. now rewrite firstn_skipn.
   - rewrite skipn_all2 by lia.
     assert (bits_to_bytes fuel [] = []) as -> by (destruct fuel; reflexivity).
-    exists (8 - length s)%nat. cbn [bytes_to_bits map concat]. rewrite app_nil_r.
+    exists (8 - length s)%nat. split; [lia|]. cbn [bytes_to_bits map concat]. rewrite app_nil_r.
     rewrite firstn_app. rewrite firstn_all2 by lia. rewrite firstn_repeat'.
     replace (Nat.min (8 - length s) 7) with (8 - length s)%nat by lia.
     rewrite bytes_bits_chunk; [reflexivity|]. rewrite app_length, repeat_length. lia.
 Qed.
 
-Lemma pack_bits_spec : forall s, exists k, bytes_to_bits (pack_bits s) = s ++ repeat false k.
+Lemma pack_bits_spec : forall s, exists k, (k < 8)%nat /\ bytes_to_bits (pack_bits s) = s ++ repeat false k.
 Proof. intros s. unfold pack_bits. apply bits_to_bytes_spec. lia. Qed.
